@@ -40,6 +40,16 @@ fn apply_opt(cfg: &mut Config, k: &str, v: &str) {
 /// iff their operator trees are equal modulo redundant parentheses.
 struct Normalise;
 fn sym(s: &str) -> TokenReference { TokenReference::symbol(s).unwrap() }
+fn strip_condition(e: Expression) -> Expression {
+    match e {
+        Expression::Parentheses { contained, expression } => match &*expression {
+            Expression::FunctionCall(_) | Expression::Symbol(_) => *expression,
+            _ => Expression::Parentheses { contained, expression },
+        },
+        other => other,
+    }
+}
+
 impl VisitorMut for Normalise {
     fn visit_expression_end(&mut self, e: Expression) -> Expression {
         match e {
@@ -58,6 +68,12 @@ impl VisitorMut for Normalise {
             other => other,
         }
     }
+    // a condition uses one value only: parentheses around a call / `...` (which cut a value list down to one value) mean nothing there,
+    // and StyLua takes the top-level pair of a condition off
+    fn visit_if_end(&mut self, n: full_moon::ast::If) -> full_moon::ast::If { let c = strip_condition(n.condition().clone()); n.with_condition(c) }
+    fn visit_else_if_end(&mut self, n: full_moon::ast::ElseIf) -> full_moon::ast::ElseIf { let c = strip_condition(n.condition().clone()); n.with_condition(c) }
+    fn visit_while_end(&mut self, n: full_moon::ast::While) -> full_moon::ast::While { let c = strip_condition(n.condition().clone()); n.with_condition(c) }
+    fn visit_repeat_end(&mut self, n: full_moon::ast::Repeat) -> full_moon::ast::Repeat { let c = strip_condition(n.until().clone()); n.with_until(c) }
     // statement boundaries are part of the meaning (`a = b` / `(f)()` is not `a = b(f)()`): every statement gets a `;`, so that the token
     // stream shows where statements end whether or not the source had a semicolon
     fn visit_block_end(&mut self, b: full_moon::ast::Block) -> full_moon::ast::Block {
